@@ -135,6 +135,15 @@ def growth_specs():
               [{'o': 'trunc', 'i': 3, 'by': 'path'}, {'o': 'iterappend', 'items': [{'n': 0, 'seed': 40, 'form': 'nd'}, {'n': 2, 'seed': 41, 'form': 'nd'}], 'gen': True},
                {'o': 'trunc', 'i': 1, 'by': 'obj'}, {'o': 'append', 'item': {'n': 3, 'seed': 42, 'form': 'nd'}}]
         yield {'kind': 'ragged', 'growth': 'append', 'start': start, 'ops': ops}
+    # a tail of EMPTY subarrays is cut off (no value goes, the length drops below five), then non-empty ones arrive at those positions
+    for atom, dt, k in (([], {'t': 'int16', 'bo': '>'}, 2), ([2], {'t': 'float32', 'bo': '<'}, 1), ([], {'t': 'uint8', 'bo': '<'}, 4)):
+        start = {'how': 'as', 'dt': dt, 'atom': atom, 'indextype': 'int64', 'meta': None, 'mode': 'r+', 'dtarg': True, 'gen': False,
+                 'items': [{'n': 2 if i < k else 0, 'seed': i, 'form': 'nd'} for i in range(7)]}
+        ops = [{'o': 'append', 'item': {'n': 0, 'seed': 20, 'form': 'nd'}}, {'o': 'trunc', 'i': k, 'by': 'obj'}] + \
+              [{'o': 'append', 'item': {'n': 3 - i % 2, 'seed': 30 + i, 'form': 'nd'}} for i in range(6 - k)] + \
+              [{'o': 'iterappend', 'items': [{'n': 0, 'seed': 40, 'form': 'nd'}] * 3, 'gen': False}, {'o': 'trunc', 'i': 6 - k + k, 'by': 'obj'},
+               {'o': 'trunc', 'i': k, 'by': 'obj'}, {'o': 'iterappend', 'items': [{'n': 1, 'seed': 50 + i, 'form': 'nd'} for i in range(5)], 'gen': True}]
+        yield {'kind': 'ragged', 'growth': 'append', 'start': start, 'ops': ops}
     # a read-only Array whose metadata object alone is switched to r+; a refused re-creation over an array with metadata
     for how in ('asarray', 'create'):
         for meta in (False, True):
